@@ -26,7 +26,16 @@ func be64(w uint64) []byte {
 }
 
 func buildTrie(name string, pool [][]byte, n int, wshift int) (*wmpt.WeightedMerkleTrie, *wmptlib.Ref) {
-	t := wmpt.New(nil, nil)
+	return buildTrieOn(name, pool, n, wshift, nil)
+}
+
+func buildTrieOn(name string, pool [][]byte, n int, wshift int, db *wmptlib.MemStore) (*wmpt.WeightedMerkleTrie, *wmptlib.Ref) {
+	var t *wmpt.WeightedMerkleTrie
+	if db != nil {
+		t = wmpt.New(nil, db)
+	} else {
+		t = wmpt.New(nil, nil)
+	}
 	ref := wmptlib.NewRef()
 	for i := 0; i < n; i++ {
 		pb := vp.Byte(name + ".payload")
@@ -96,7 +105,35 @@ func H_Proof() {
 	default:
 		pool = [][]byte{all[0], all[3], all[4], all[5]}
 	}
-	t, ref := buildTrie("t", pool, n, wshift)
+	// the prover: an in-memory trie, one committed to storage with its lower levels collapsed to
+	// hash references, or one reopened from its root hash
+	prover := 0
+	if np := vp.Param("provers", 1); np > 1 {
+		prover = vp.Choose("prover", np)
+	}
+	var db *wmptlib.MemStore
+	if prover > 0 {
+		db = wmptlib.NewMemStore()
+	}
+	t, ref := buildTrieOn("t", pool, n, wshift, db)
+	if prover > 0 {
+		lvl := []int{0, 1, 2}[vp.Choose("collapse", 3)]
+		var cerr error
+		if vp.NoPanic("C10.nopanic", func() {
+			b, e := t.Commit(lvl)
+			cerr = e
+			if e == nil {
+				cerr = b.Commit(false)
+			}
+		}) {
+			return
+		}
+		vp.Assert("C10.commit-ok", cerr == nil)
+		if prover == 2 {
+			t = wmpt.New(wmpt.NewHashNode(append([]byte{}, t.Root()...), t.Weight()), db)
+		}
+		vp.Cover("C10.stored-prover")
+	}
 	es := ref.Sorted()
 	total := ref.Total()
 	var trusted []byte
@@ -137,6 +174,11 @@ func H_Proof() {
 	}
 	vp.Observe("honest", err == nil, bytes.Equal(hash, trusted))
 
+	if prover > 0 {
+		// the forgery part concerns the verifier only and is run with the in-memory prover
+		vp.Cover("C10.done")
+		return
+	}
 	// forgery part: start from the honest proof of any block b2 of the same trie
 	kind := vp.Choose("tamper", vp.Param("tampers", 9))
 	if ok := vp.Param("onlykind", -1); ok >= 0 && kind != ok {
